@@ -4,6 +4,6 @@ d=/verif/seeded/$1; id=${2:-$(python3 -c "import json;print(json.load(open('$d/m
 cd /repo; [ -z "$(git status --porcelain --untracked-files=no | grep -v verif_contracts.go)" ] || { echo "repo dirty"; exit 1; }
 P=$d/patch.diff; [ -f $d/patch_rebased_on_fix.diff ] && P=$d/patch_rebased_on_fix.diff
 git apply $P || { echo "PATCH DOES NOT APPLY to /repo"; exit 1; }
-cd /verif; out=$(./check $id 2>&1); rc=$?
+cd /verif; ev=$(mktemp -d); out=$(VERIF_EVIDENCE_DIR=$ev ./check $id 2>&1); rc=$?; rm -rf $ev
 git -C /repo apply -R $P
 echo "$out" | grep -E "^(VIOLATION|UNDECIDED|KNOWN)" | cut -c1-260 | head -5; echo "$out" | tail -1; echo "exit=$rc"
